@@ -1,10 +1,12 @@
 use std::cmp::Ordering;
 
 use rusty_common::*;
-use rusty_parser::{AsBareName, Expression, ExpressionPos, Operator, TypeQualifier, UnaryOperator};
+use rusty_parser::{
+    AsBareName, Expression, ExpressionPos, ExpressionType, Operator, TypeQualifier, UnaryOperator,
+};
 use rusty_variant::Variant;
 
-use crate::core::{LintError, LintErrorPos};
+use crate::core::{CastVariant, LintError, LintErrorPos};
 
 /// A lookup map of resolved constant values.
 pub trait ConstLookup {
@@ -74,6 +76,22 @@ where
             Expression::BinaryExpression(op, left, right, _) => {
                 let v_left = self.eval_const(left)?;
                 let v_right = self.eval_const(right)?;
+                if *op == Operator::And || *op == Operator::Or {
+                    // like at run time, the operands are converted to integers first
+                    let i_left = v_left
+                        .cast(TypeQualifier::PercentInteger)
+                        .map_err(|e| e.at(left))?;
+                    let i_right = v_right
+                        .cast(TypeQualifier::PercentInteger)
+                        .map_err(|e| e.at(right))?;
+                    return (if *op == Operator::And {
+                        i_left.and(i_right)
+                    } else {
+                        i_left.or(i_right)
+                    })
+                    .map_err(LintError::from)
+                    .map_err(|e| e.at(right));
+                }
                 (match *op {
                     Operator::Less => v_left
                         .try_cmp(&v_right)
@@ -122,8 +140,16 @@ where
                 .map_err(|e| e.at(child))
             }
             Expression::Parenthesis(child) => self.eval_const(child),
-            Expression::Property(_, _, _)
-            | Expression::FunctionCall(_, _)
+            Expression::Property(_, _, _) => match expression.fold_name() {
+                // a constant whose name has dots, e.g. `CONST MAX.X = 10`
+                Some(name) => {
+                    let folded =
+                        Expression::Variable(name, ExpressionType::Unresolved).at_pos(*pos);
+                    self.eval_const(&folded)
+                }
+                None => Err(LintError::InvalidConstant.at_pos(*pos)),
+            },
+            Expression::FunctionCall(_, _)
             | Expression::ArrayElement(_, _, _)
             | Expression::BuiltInFunctionCall(_, _) => Err(LintError::InvalidConstant.at_pos(*pos)),
         }
